@@ -134,7 +134,7 @@ def rule_flags(R):
         R.touch(fb)
         adt = im["self_ty"].split("<")[0]
         env = flag_env(f, adt)
-        vs = valueset.evaluate(f, fb.local_term(0), env)
+        vs = valueset.evaluate_fn(f, fb, env)
         if vs is not None:
             vs = set(v & 0x0F for v in vs)
         flagsets[kind] = vs
@@ -152,7 +152,7 @@ def rule_flags(R):
     pf = [b for b in f.bodies.values() if b.fn_name == "fixed_header_flags" and b.self_ty and b.self_ty.startswith("packets::PublishHeader")]
     if len(pf) != 1:
         raise AnchorLost("PublishHeader::fixed_header_flags")
-    pvs = valueset.evaluate(f, pf[0].local_term(0), flag_env(f, "packets::PublishHeader"))
+    pvs = valueset.evaluate_fn(f, pf[0], flag_env(f, "packets::PublishHeader"))
     if pvs is not None:
         pvs = set(v & 0x0F for v in pvs)
     flagsets["Publish"] = pvs
@@ -507,7 +507,10 @@ def rule_class(R):
     R.ob("class/in-progress", tp == {"Write": (1, INF), "Flush": "all"},
          "an entry is in progress exactly when it is Write{written >= 1} or Flush (extracted true-region: %s)" % (tp,),
          where=prog.span)
-    mp = roles.method(f, st, "matches_priority")
+    mp = _selector(f)
+    if mp is None:
+        R.ob("class/selector", True, "no pass selector: each scan of next_step names its classifier (is_in_progress / is_fresh) directly")
+        return
     ok = False
     for bb in mp.switches:
         si = mp.switch_info(bb)
@@ -519,48 +522,99 @@ def rule_class(R):
     R.ob("class/selector", ok, "matches_priority(true) means in-progress, matches_priority(false) means fresh", where=mp.span)
 
 
-def clause_steps_gated(R, prefix):
-    """every step next_step can hand out was selected by the pass classifier (`matches_priority(entry.state, pass)`): a
-    queue that is served outside the two-pass scheme lets a fresh packet start while another one is half written --
-    the byte stream would interleave two packets"""
-    f = R.f
-    ns = roles.method(f, OUTBOUND, "next_step")
-    st = "mqtt_client::outbound::SendState"
-    mp = roles.method(f, st, "matches_priority")
+ST = "mqtt_client::outbound::SendState"
+
+
+def _selector(f):
+    try:
+        return roles.method(f, ST, "matches_priority")
+    except AnchorLost:
+        return None
+
+
+def scan_gates(f, ns):
+    """The tests by which next_step selects an entry: boolean switches on `is_in_progress(state)` (class P),
+    `is_fresh(state)` (class F) or `matches_priority(state, flag)` (P / F for a constant flag, 'flag' for the pass
+    variable of an outer loop).  -> list of dict(bb, true, false, cls, state, call)"""
+    fresh = roles.method(f, ST, "is_fresh")
+    prog = roles.method(f, ST, "is_in_progress")
+    mp = _selector(f)
     gates = []
-    for c in outq.calls_to(f, ns, mp):
+    for c in ns.calls.values():
+        if c.bb not in ns.reachable:
+            continue
+        if outq.targets_fn(f, c, prog):
+            cls = "P"
+        elif outq.targets_fn(f, c, fresh):
+            cls = "F"
+        elif mp is not None and outq.targets_fn(f, c, mp):
+            fl = peel(ns.operand_term(c.args[1]))
+            cls = ("P" if fl[2] == 1 else "F") if fl[0] == "const" and fl[1] == "bool" and fl[2] in (0, 1) else "flag"
+        else:
+            continue
         for si in ns.result_switches(lambda x, c=c: peel(x)[0] == "call" and peel(x)[1] == c.bb):
-            if si["edges"].get(True) is not None:
-                gates.append((c, (si["bb"], si["edges"][True])))
-    n = 0
+            t, fl_ = si["edges"].get(True), si["edges"].get(False)
+            if t is not None and fl_ is not None:
+                gates.append({"bb": si["bb"], "true": t, "false": fl_, "cls": cls, "state": peel(ns.operand_term(c.args[0])), "call": c})
+    return gates
+
+
+def _gate_loop(ns, g):
+    """(queue, next-call block, switch block on the iterator's result, its None target, its Some target) of the scan
+    loop the gate's entry comes from"""
+    for x in walk(g["state"]):
+        if isinstance(x, tuple) and x[0] == "call" and x[1] in ns.calls and ns.calls[x[1]].is_("core::iter::Iterator::next"):
+            c = ns.calls[x[1]]
+            q = None
+            for y in walk(ns.operand_term(c.args[0])):
+                if isinstance(y, tuple) and y[0] == "field" and y[2] in outq.QUEUES:
+                    q = y[2]
+            for sb in ns.switches:
+                si = ns.switch_info(sb)
+                if si["enum"] == "core::option::Option" and any(a[0] == "call" and a[1] == c.bb for a in phi_alts(peel(si["subject"]))) \
+                        and si["edges"].get("None") is not None and si["edges"].get("Some") is not None:
+                    return q, c.bb, sb, si["edges"]["None"], si["edges"]["Some"]
+    return None
+
+
+def gated_constructions(f, ns):
+    """[(kind, block, span, gate or None)] for every OutboundStep built in next_step: the gate whose true edge every
+    path to the construction takes and whose classified state is the state the step is built from"""
+    gates = scan_gates(f, ns)
+    out = []
     for bb, j, s in ns.assigns():
         rv = s["rv"]
         if bb not in ns.reachable or "agg" not in rv or not (rv["agg"].get("adt") or "").endswith("OutboundStep"):
             continue
         kind = rv["agg"]["variant"]
-        n += 1
-        ok = False
-        for c, edge in gates:
-            if ns.must_pass([0], [bb], via_edges=[edge])[0]:
-                # the classified state is the state of the entry the step is built from
-                stt = peel(ns.operand_term(c.args[0]))
-                t = ns.rvalue_term(rv)
-                inner = peel(t[5][0]) if t[5] else None
-                fl = dict(zip(inner[4], inner[5])) if inner is not None and inner[0] == "agg" else {}
-                ok = "state" in fl and same_shape(peel(fl["state"]), stt)
-                if ok:
-                    break
-        R.ob("%s/%s" % (prefix, kind), ok,
+        t = ns.rvalue_term(rv)
+        inner = peel(t[5][0]) if t[5] else None
+        fl = dict(zip(inner[4], inner[5])) if inner is not None and inner[0] == "agg" else {}
+        found = None
+        for g in gates:
+            if ns.must_pass([0], [bb], via_edges=[(g["bb"], g["true"])])[0] and "state" in fl and same_shape(peel(fl["state"]), g["state"]):
+                found = g
+                break
+        out.append((kind, bb, s["span"], found))
+    return out
+
+
+def clause_steps_gated(R, prefix):
+    """every step next_step can hand out was selected by the pass classifier (`matches_priority(entry.state, pass)`, or
+    is_in_progress / is_fresh named directly): a queue that is served outside the two-pass scheme lets a fresh packet
+    start while another one is half written -- the byte stream would interleave two packets"""
+    f = R.f
+    ns = roles.method(f, OUTBOUND, "next_step")
+    cons = gated_constructions(f, ns)
+    for kind, bb, span, g in cons:
+        R.ob("%s/%s" % (prefix, kind), g is not None,
              "an OutboundStep::%s is handed out only for an entry that the pass classifier selected (matches_priority on that "
              "entry's state): in-progress packets of every queue are completed before any fresh packet is started" % kind,
-             where=s["span"])
-    R.floor(prefix, n, 3, "OutboundStep constructions in next_step")
+             where=span)
+    R.floor(prefix, len(set(k for k, _, _, _ in cons)), 3, "OutboundStep kinds built in next_step")
 
 
-def rule_priority(R):
-    f = R.f
-    clause_steps_gated(R, "priority/gated")
-    ns = roles.method(f, OUTBOUND, "next_step")
+def _priority_flag_form(R, ns):
     arr = None
     for bb, j, s in ns.assigns():
         rv = s["rv"]
@@ -583,6 +637,51 @@ def rule_priority(R):
         n += 1
         R.ob("priority/flag#%d" % n, any(x[0] == "agg" and x[1] == "array" for x in walk(a)),
              "the classifier receives the pass flag of the outer loop", where=c.span)
+
+
+def _priority_unrolled_form(R, ns, cons):
+    """every scan names its class: a step for a fresh entry is built only after an in-progress scan of *each* queue ran
+    to exhaustion (and such a scan hands out the first in-progress entry it meets)"""
+    f = R.f
+    pscans = {}
+    for kind, bb, span, g in cons:
+        if g is not None and g["cls"] == "P":
+            lp = _gate_loop(ns, g)
+            if lp is None or lp[0] is None:
+                continue
+            q, nbb, sb, none_t, some_t = lp
+            # the scan cannot go on to the next element past an in-progress one
+            if ns.must_pass([some_t], [nbb], via_edges=[(g["bb"], g["false"])])[0]:
+                pscans.setdefault(q, []).append((sb, none_t))
+    fresh_built = 0
+    ok_all = True
+    for kind, bb, span, g in cons:
+        if g is None or g["cls"] != "F":
+            continue
+        fresh_built += 1
+        missing = [q for q in outq.QUEUES
+                   if not any(ns.must_pass([0], [bb], via_edges=[edge])[0] for edge in pscans.get(q, []))]
+        ok_all = ok_all and not missing
+        R.ob("priority/in-progress-first/%s" % kind, not missing,
+             "a fresh %s step is handed out only after the in-progress scans of all three queues found nothing "
+             "(no exhausted in-progress scan of %s on the way)" % (kind, missing), where=span)
+    R.ob("priority/in-progress-first", ok_all and fresh_built >= 3 and set(pscans) == set(outq.QUEUES),
+         "next_step serves in-progress entries of every queue before any fresh one: in-progress scans over %s, %d fresh "
+         "constructions" % (sorted(pscans), fresh_built), where=ns.span)
+
+
+def rule_priority(R):
+    f = R.f
+    clause_steps_gated(R, "priority/gated")
+    ns = roles.method(f, OUTBOUND, "next_step")
+    cons = gated_constructions(f, ns)
+    classes = set(g["cls"] for _, _, _, g in cons if g is not None)
+    if classes == {"flag"}:
+        _priority_flag_form(R, ns)
+    elif classes and classes <= {"P", "F"}:
+        _priority_unrolled_form(R, ns, cons)
+    else:
+        R.undecide("priority/in-progress-first", "next_step mixes a pass flag with directly named classifiers, or no step is gated")
 
 
 def rule_arena_order(R):
